@@ -72,14 +72,17 @@ type Transport struct {
 // RoundTrip implements the [http.RoundTripper] interface.
 func (t *Transport) RoundTrip(req *http.Request) (*http.Response, error) {
 	ctx := req.Context()
-	res, err := t.Resolver.Resolve(ctx, req.URL.String())
+	var aliased bool
+	res, err := t.Resolver.resolve(ctx, req.URL.String(), &aliased)
 	if err != nil {
 		return nil, err
 	}
 	origReq := req
 	req = req.Clone(ctx)
 
-	if len(res.HTTPS) > 0 && req.URL.Scheme == "http" {
+	// Any AliasMode record upgrades the request, like the ServiceMode
+	// records do. RFC 9460 section-9.5
+	if (len(res.HTTPS) > 0 || aliased) && req.URL.Scheme == "http" {
 		req.URL.Scheme = "https"
 		// The upgraded request goes to the https port, also when none
 		// of the records can be used. RFC 9460 section-9.5
